@@ -1,5 +1,5 @@
 """C11 — CIF version and encoding selection: magic-code agreement and the two version-dependent diagnostics' guards."""
-from ..facts import Broken, strip, const, walk, walk_eval, macro_name
+from ..facts import Broken, strip, const, walk, walk_eval, macro_name, show
 from ..interp import path
 from .. import cfgq
 from . import c02
@@ -225,6 +225,11 @@ def run(prog, chk):
     else:
         r7.ok("cif_parse:version-hand-over", "%d states at the hand-over: undecided only with prefer_cif2 <= 0" % len(hand))
 
+    r9 = chk.rule("R9-end-of-file-mark-needs-a-read", "the byte source is marked as being at end of file only on paths that have read "
+                  "from it (or where it was already so marked): with force_default_encoding nothing is pre-read", primary=False, floor=3)
+    if eof_evidence_rule(prog, r9) < 3:
+        raise Broken("fewer than 3 stores to eof_status found")
+
     r8 = chk.rule("R8-encoding-evidence-is-the-converter", "the `not UTF-8` flag cif_parse hands to cif_parse_internal (which decides the "
                   "CIF_WRONG_ENCODING report) is computed from the name of the converter actually opened and from nothing else: "
                   "not from the version or the preference, which say what was hoped for, not what was opened", primary=False, floor=1)
@@ -263,3 +268,40 @@ def run(prog, chk):
         else:
             r8.ok(key, "depends on %s only" % ", ".join(sorted(x for x in names if x and ("converter" in x or x in seen_))[:4]))
 
+
+
+def eof_evidence_rule(prog, rule):
+    """R9: the byte source is marked as being at end of file (a non-zero `eof_status`) only on a path that has itself called fread
+    (the short count is the evidence), or where the status was already found non-zero.  The forced-encoding path of
+    cif_parse does not pre-read the stream: a mark derived from a count that path sets to 0 ends the parse before it began."""
+    n = 0
+    for fn in prog.all_functions():
+        if fn.unit != "ciffile.c":
+            continue
+        stores = [(b, i, x) for (b, i, r, x) in fn.eval_sites("asg")
+                  if (path(strip(x.get("lhs"))) or "").endswith("eof_status") and x.get("op") == "="]
+        if not stores:
+            continue
+        freads = [(b.id, i) for (b, i, r, c) in fn.calls_to("fread")]
+
+        def nonzero_status(cnd):
+            z = cfgq.zero_test(cnd, lambda e: (path(strip(e)) or "").endswith("eof_status"))
+            if z is None:
+                return None
+            return "false" if z == "true" else "true"
+        edges = cfgq.guard_edges(fn, nonzero_status)
+        for (b, i, x) in stores:
+            n += 1
+            key = "%s:eof_status@L%s" % (fn.name, x.get("l"))
+            if const(x.get("rhs")) == 0:
+                rule.ok(key, "cleared")
+            elif freads and cfgq.must_precede(fn, (b.id, i), freads):
+                rule.ok(key, "after a read of the byte stream on every path")
+            elif edges and cfgq.must_pass_edge(fn, b.id, edges):
+                rule.ok(key, "where the status was already non-zero")
+            else:
+                rule.violation(fn.file, fn.name, x.get("l"), "eof-mark-without-read:%s" % fn.name,
+                               "`%s` can mark the byte source as being at end of file on a path that has not read from it (the "
+                               "forced-encoding path skips the look-ahead read): the parse ends at once with an empty CIF"
+                               % show(x)[:70])
+    return n
